@@ -144,7 +144,10 @@ def decorate(rng, objs, mode):
         t = (vs[-1], "cyc")
         vs[0].tcyc = t
         vs[-1].tcyc = t
-        if rng.random() < 0.5:
+        if rng.random() < 0.5 and not isinstance(vs[-1], zoo.VNamed):
+            # (not with a member hashed by value: a SET the caller puts on a cycle through its own member cannot be
+            # loaded by any pickler - the member is hashed before it has its state; that is the caller's data, not
+            # the library's)
             fs = frozenset([vs[-1]])
             vs[0].fscyc = fs
             vs[-1].fscyc = fs
@@ -553,7 +556,8 @@ def run(ctx):
         if rng.random() < 0.6:
             desc = {"source": "history", "seed": rng.randrange(10 ** 9), "nops": rng.randint(10, 60), "nv": rng.randint(3, 5)}
         else:
-            desc = {"source": "spec", "spec": graphs.rand_spec(rng, nmax=8, mmax=16, uni_mode="rand")}
+            desc = {"source": "spec", "spec": graphs.rand_spec(rng, nmax=8, mmax=16, uni_mode="rand",
+                                                               vcls=graphs.VCLS_MIX + ["VNamed", "VNamed"])}
         desc["attrs"] = rng.choice(["none", "prims", "containers", "shared", "shared", "big"] if i % 9 else ["big"])
         if i % 60 == 7:
             desc["attrs"] = "deepdata"
